@@ -151,3 +151,22 @@ fn c17_quartic() {
     }
     kani::cover!(true, "[cover] reachable");
 }
+
+/// the same with ANY finite numbers (two adder circuits per lane are compared: minutes with kissat) — thorough tier
+#[kani::proof]
+#[kani::unwind(6)]
+fn c14_quartic_add_sub_full() {
+    let a = IntOfLogPoly4 { k: fin_any(), coeffs: [fin_any(), fin_any(), fin_any(), fin_any()], u: fin_any() };
+    let b = IntOfLogPoly4 { k: fin_any(), coeffs: [fin_any(), fin_any(), fin_any(), fin_any()], u: fin_any() };
+    let s = a + b;
+    let d = a - b;
+    assert!(bits_eq(s.k, a.k + b.k) && bits_eq(s.u, a.u + b.u), "[spec] + adds k and u (full range)");
+    assert!(bits_eq(d.k, a.k - b.k) && bits_eq(d.u, a.u - b.u), "[spec] - subtracts k and u (full range)");
+    let mut i = 0;
+    while i < 4 {
+        assert!(bits_eq(s.coeffs[i], a.coeffs[i] + b.coeffs[i]), "[spec] + adds every coefficient lane-wise (full range)");
+        assert!(bits_eq(d.coeffs[i], a.coeffs[i] - b.coeffs[i]), "[spec] - subtracts every coefficient lane-wise (full range)");
+        i += 1;
+    }
+    kani::cover!(true, "[cover] reachable");
+}
